@@ -489,6 +489,26 @@ def census(apps):
     # the interpreter-wide MIME table as a deployment configured it
     import mimetypes
     snap["mimetypes(.verif)"] = repr(mimetypes.guess_type("a.verif"))
+    # other interpreter-wide settings a deployment may have made: warning
+    # filters, the logging tree of the package, locale, recursion limit,
+    # default socket timeout, the process environment
+    import warnings
+    import logging
+    import locale
+    import socket
+    snap["warnings.filters"] = repr([(f[0], str(f[1]), f[2].__name__,
+                                      str(f[3]), f[4])
+                                     for f in warnings.filters])
+    plog = logging.getLogger("poorwsgi")
+    snap["logging(poorwsgi)"] = repr((plog.level, plog.propagate,
+                                      plog.disabled, len(plog.handlers),
+                                      logging.root.level,
+                                      len(logging.root.handlers)))
+    snap["locale"] = repr(locale.setlocale(locale.LC_ALL))
+    snap["sys.limits"] = repr((sys.getrecursionlimit(),
+                               socket.getdefaulttimeout(),
+                               sorted(k for k in os.environ
+                                      if k.startswith("poor"))))
     for i, app in enumerate(apps):
         for attr, val in list(vars(app).items()):
             snap["app%d.%s" % (i, attr)] = _c(val, 0, frozenset())
